@@ -10,6 +10,9 @@ from collections import Counter, defaultdict
 import numpy as np
 
 MAX_WITNESSES_PER_SHARD = 12
+# per-case determinism for workload choices made outside the case's own generator (set by Ctx.case_id)
+CASE_SALT = 0
+CASE_CALLS = {}
 MAX_SAMPLES_PER_SHARD = 3
 
 
@@ -100,6 +103,9 @@ class Ctx:
         if sys.flags.optimize:
             d["python_O"] = int(sys.flags.optimize)
         self.last_case = d
+        global CASE_SALT
+        CASE_SALT = zlib.crc32(("%s:%s:%s" % (kind, int(idx), self.seed)).encode())
+        CASE_CALLS.clear()
         return d
 
     # ---- accounting
